@@ -1,9 +1,11 @@
 // ---------------------------------------------------------------------------------------------------------
 // Token-level model of cbor_event's Serializer (a DEPENDENCY: its contracts are ASSUMED; the byte-level facts that matter —
 // shortest heads — are cross-checked against the real cbor_event by Kani harnesses).
-// A serializer's state is the sequence of CBOR tokens written so far.
+// A serializer's state is the sequence of CBOR tokens written so far.  The writer is monomorphised to Vec<u8> (what to_bytes / to_hex /
+// the hash helpers use): std's `impl Write for Vec<u8>` never fails, so every write returns Ok.
 // ---------------------------------------------------------------------------------------------------------
 #[verifier::external_body] pub struct CborError { _p: core::marker::PhantomData<u8> }
+impl core::fmt::Debug for CborError { #[verifier::external_body] fn fmt(&self, f: &mut core::fmt::Formatter<'_>) -> core::fmt::Result { unimplemented!() } }
 pub enum CBORSpecial { Bool(bool), Null, Undefined, Break }
 pub mod cbor_event {
     pub enum Len { Indefinite, Len(u64) }
@@ -14,31 +16,35 @@ pub enum Tok {
     Special(CBORSpecial), Raw(Seq<u8>),
 }
 #[verifier::external_body] pub struct Serializer { _p: core::marker::PhantomData<u8> }
+/// the bytes a token sequence denotes (heads as cbor_event writes them: shortest form, cross-checked by Kani)
+pub uninterp spec fn bytes_of_toks(t: Seq<Tok>) -> Seq<u8>;
 impl Serializer {
     pub uninterp spec fn toks(&self) -> Seq<Tok>;
+    #[verifier::external_body] pub fn new_vec() -> (r: Serializer) ensures r.toks() == Seq::<Tok>::empty() { unimplemented!() }
+    #[verifier::external_body] pub fn finalize(self) -> (r: Vec<u8>) ensures r@ == bytes_of_toks(self.toks()) { unimplemented!() }
     #[verifier::external_body] pub fn write_map(&mut self, len: cbor_event::Len) -> (r: Result<(), CborError>)
-        ensures r is Ok ==> final(self).toks() == old(self).toks().push(match len { cbor_event::Len::Len(n) => Tok::Map(n), cbor_event::Len::Indefinite => Tok::MapIndef }) { unimplemented!() }
+        ensures r is Ok, final(self).toks() == old(self).toks().push(match len { cbor_event::Len::Len(n) => Tok::Map(n), cbor_event::Len::Indefinite => Tok::MapIndef }) { unimplemented!() }
     #[verifier::external_body] pub fn write_array(&mut self, len: cbor_event::Len) -> (r: Result<(), CborError>)
-        ensures r is Ok ==> final(self).toks() == old(self).toks().push(match len { cbor_event::Len::Len(n) => Tok::Arr(n), cbor_event::Len::Indefinite => Tok::ArrIndef }) { unimplemented!() }
+        ensures r is Ok, final(self).toks() == old(self).toks().push(match len { cbor_event::Len::Len(n) => Tok::Arr(n), cbor_event::Len::Indefinite => Tok::ArrIndef }) { unimplemented!() }
     #[verifier::external_body] pub fn write_unsigned_integer(&mut self, v: u64) -> (r: Result<(), CborError>)
-        ensures r is Ok ==> final(self).toks() == old(self).toks().push(Tok::UInt(v)) { unimplemented!() }
+        ensures r is Ok, final(self).toks() == old(self).toks().push(Tok::UInt(v)) { unimplemented!() }
     #[verifier::external_body] pub fn write_negative_integer(&mut self, v: i64) -> (r: Result<(), CborError>)
-        ensures r is Ok ==> final(self).toks() == old(self).toks().push(Tok::NInt(v as int)) { unimplemented!() }
+        ensures r is Ok, final(self).toks() == old(self).toks().push(Tok::NInt(v as int)) { unimplemented!() }
     #[verifier::external_body] pub fn write_tag(&mut self, t: u64) -> (r: Result<(), CborError>)
-        ensures r is Ok ==> final(self).toks() == old(self).toks().push(Tok::Tag(t)) { unimplemented!() }
+        ensures r is Ok, final(self).toks() == old(self).toks().push(Tok::Tag(t)) { unimplemented!() }
     #[verifier::external_body] pub fn write_bytes(&mut self, b: &[u8]) -> (r: Result<(), CborError>)
-        ensures r is Ok ==> final(self).toks() == old(self).toks().push(Tok::Bytes(b@)) { unimplemented!() }
+        ensures r is Ok, final(self).toks() == old(self).toks().push(Tok::Bytes(b@)) { unimplemented!() }
     #[verifier::external_body] pub fn write_raw_bytes(&mut self, b: &[u8]) -> (r: Result<(), CborError>)
-        ensures r is Ok ==> final(self).toks() == old(self).toks().push(Tok::Raw(b@)) { unimplemented!() }
+        ensures r is Ok, final(self).toks() == old(self).toks().push(Tok::Raw(b@)) { unimplemented!() }
     #[verifier::external_body] pub fn write_special(&mut self, s: CBORSpecial) -> (r: Result<(), CborError>)
-        ensures r is Ok ==> final(self).toks() == old(self).toks().push(Tok::Special(s)) { unimplemented!() }
+        ensures r is Ok, final(self).toks() == old(self).toks().push(Tok::Special(s)) { unimplemented!() }
 }
 /// the library's `cbor_event::se::Serialize`, with the returned `&mut Serializer` alias dropped (R-serret)
 pub trait Ser {
     /// tokens this value serializes to
     spec fn enc(&self) -> Seq<Tok>;
     fn serialize(&self, serializer: &mut Serializer) -> (r: Result<(), CborError>)
-        ensures r is Ok ==> final(serializer).toks() == old(serializer).toks() + self.enc();
+        ensures r is Ok, final(serializer).toks() == old(serializer).toks() + self.enc();
 }
 /// a serializable type whose own encoder is not under contract in this unit
 macro_rules! ser_opaque { ($($n:ident),* $(,)?) => { verus!{ $(
